@@ -75,6 +75,7 @@ def elementwise(ctx, kind, direction):
     if m is None:
         raise Unestablished("no rank dispatch in %s::%s" % (kind, direction), c.loc(fn))
     sp = spec(kind, direction)
+    arms.guarded_arms(ctx, "R07.3", fn, m, "%s::%s" % (kind, direction))
     vals = {}
     bodies = {}
     for ra in arms.rank_arms(m, ["r0"]):
@@ -86,7 +87,7 @@ def elementwise(ctx, kind, direction):
             ctx.bad("R07.3", inst, "unexpected-rank-arm", where, "")
             continue
         try:
-            sem, r = arms.arm_semantics(c, ra)
+            sem, r = arms.arm_semantics(c, ra, env=arms.fn_level_env(c, fn, upto=m))
         except (Unrecognised, ValueError) as e:
             ctx.bad("R07.3", inst, "arm-not-recognised-as-elementwise", where, "cannot establish an every-element, in-order map: %s" % e)
             continue
@@ -171,6 +172,7 @@ def totality(ctx, kind, direction, fn, bodies):
         ev.cellkey = cn
         ev.cells = {"r0": AV(-e2.F32_MAX, e2.F32_MAX)}
         try:
+            e2.eval_fn_lets(ev, fn, None)
             res = ev.eval(r.body)
         except ValueError as e:
             ctx.unest("R07.4", inst0, "abstract interpreter: %s" % e, c.loc(fn, r.body))
@@ -248,11 +250,51 @@ def softmax(ctx):
                       "the shift is computed as %s" % short(pretty(i), 120))
             if ok:
                 mh = h
+    if mh is None and not any(o["instance"] == "max-fold" for o in ctx.obligations):
+        # loop form: let mut m = -inf; for &v in x.iter() { m = m.max(v) | f32::max(m, v) | if v > m { m = v } }
+        for h, (nm, init) in lets.items():
+            i = strip(init) if init is not None else None
+            if i is None or not (i.get("k") == "path" and i["def"].endswith("NEG_INFINITY")):
+                continue
+            for s_ in b["stmts"]:
+                if s_.get("k") != "for":
+                    continue
+                it_ = strip(s_["iter"])
+                names_ = []
+                src_ = it_
+                while src_.get("k") == "mcall":
+                    names_.append(src_["name"])
+                    src_ = strip(src_["recv"])
+                if not (e4.local_hid(src_) == xh and set(names_) <= {"iter", "cloned", "copied"} and "iter" in names_):
+                    continue
+                vb = pat_binds(s_["pat"])
+                asg = [y for y in walk(s_["body"]) if y.get("k") == "assign" and e4.local_hid(y["l"]) == h]
+                if len(vb) != 1 or len(asg) != 1:
+                    continue
+                r_ = strip(asg[0]["r"])
+                ok_ = False
+                if r_.get("k") in ("mcall", "call") and (r_.get("name") == "max" or r_.get("callee", "").endswith("f32>::max")):
+                    ops = ([r_["recv"]] + list(r_["args"])) if r_["k"] == "mcall" else list(r_["args"])
+                    ok_ = sorted(str(e4.local_hid(o_)) for o_ in ops) == sorted([str(h), str(vb[0][1])])
+                elif e4.local_hid(r_) == vb[0][1]:
+                    from .c13 import enclosing_conditions
+                    cs_ = enclosing_conditions(s_["body"], asg[0]) or []
+                    if len(cs_) == 1 and cs_[0][1] == "th":
+                        cn_ = strip(cs_[0][0]["c"])
+                        N_ = e1.Norm(c, {h: Rat.atom("m"), vb[0][1]: Rat.atom("v")})
+                        try:
+                            ok_ = str(N_.norm(cn_)) in (e1.cmp_atom("Gt", Rat.atom("v"), Rat.atom("m")), e1.cmp_atom("Ge", Rat.atom("v"), Rat.atom("m")))
+                        except ValueError:
+                            ok_ = False
+                outs_ = e4.outcomes(c, s_["body"], lambda n_: False)
+                if ok_ and all(k_ == e4.FALL for (k_, _) in outs_):
+                    ctx.ok("R07.5", "max-fold", "m = running f32::max over x starting from -inf (loop form)", c.loc(fn, s_))
+                    mh = h
     if mh is None:
         if not any(o["instance"] == "max-fold" for o in ctx.obligations):
             ctx.bad("R07.5", "max-fold", "no-max-subtraction", c.loc(fn), "soft-max computes no maximum of its inputs: exp overflows for large inputs")
         return
-    loops = [s for s in b["stmts"] if s.get("k") == "for"]
+    loops = [s for s in b["stmts"] if s.get("k") == "for" and any(y.get("k") == "mcall" and y["name"] == "exp" for y in walk(s["body"]))]
     if len(loops) != 1:
         raise Unestablished("soft-max: expected one accumulation loop", c.loc(fn))
     lp = loops[0]
